@@ -1,12 +1,17 @@
 // Package hself: tiny harnesses used to test the engine itself.
 package hself
 
-import "vh/rt"
+import (
+	"sort"
+
+	"vh/rt"
+)
 
 func init() {
 	rt.Register("Self_Bytes", Self_Bytes)
 	rt.Register("Self_Ints", Self_Ints)
 	rt.Register("Self_Sort", Self_Sort)
+	rt.Register("Self_SortSlice", Self_SortSlice)
 	rt.Register("Self_Twin", Self_Twin)
 	rt.Register("Self_Overflow", Self_Overflow)
 }
@@ -65,6 +70,28 @@ func Self_Sort() {
 		rt.Assert(l[i-1] <= l[i], "sorted")
 	}
 	rt.ObsInt("len", len(l))
+}
+
+// Self_SortSlice: the engine's model of sort.Slice / sort.SliceStable (they
+// go through reflection natively): 3 symbolic values, 3! orders + ties.
+func Self_SortSlice() {
+	type kv struct{ k, seq int }
+	l := []kv{{rt.Int("v"), 0}, {rt.Int("v"), 1}, {rt.Int("v"), 2}}
+	sum := l[0].k ^ l[1].k ^ l[2].k
+	if rt.Choose("stable", 2) == 1 {
+		sort.SliceStable(l, func(i, j int) bool { return l[i].k < l[j].k })
+		for i := 1; i < len(l); i++ {
+			rt.Assert(l[i-1].k < l[i].k || l[i-1].k == l[i].k && l[i-1].seq < l[i].seq, "stable-order")
+		}
+	} else {
+		sort.Slice(l, func(i, j int) bool { return l[i].k < l[j].k })
+		for i := 1; i < len(l); i++ {
+			rt.Assert(l[i-1].k <= l[i].k, "order")
+		}
+	}
+	rt.Assert(l[0].k^l[1].k^l[2].k == sum, "same-elements")
+	rt.Assert(l[0].seq+l[1].seq+l[2].seq == 3, "permutation")
+	rt.ObsInt("first", l[0].k)
 }
 
 // Self_Twin: a reachability twin — its final assertion is false, so the engine
